@@ -256,6 +256,9 @@ def run_c02(ctx):
         docs = list(value_docs(ctx, 3000))
         ctx.violations += judge_sources(ctx, cfg, docs, ops=('pv',), srcs=['s', 'b', 'r1', 'rx5'], what_prefix='c02-')
         ctx.violations += judge_entry_points(ctx, cfg, docs + list(itertools.islice(gen.enum_tokens(3), 0, None, 5)))
+        ctx.violations += judge_state_isolation(ctx, cfg, 1500 if ctx.tier == 'quick' else 15000)
+    for cfg in [c for c in getattr(ctx, 'side_cfgs', []) if c == 'fr' and c not in ctx.cfgs]:
+        ctx.violations += judge_state_isolation(ctx, cfg, 1500)
     ctx.violations += judge_private_tokens(ctx, acceptance_only=False)
 
 def judge_c11(ctx, cfg, inputs, aux=None):
@@ -414,6 +417,38 @@ def judge_errmsg(ctx, cfg, n):
         elif not ctx.quiet and a[:1] not in ('0', 'S'):
             ctx.distinct_nontrivial += 1
     ctx.count('custom-error-messages', len(lines))
+    return v
+
+def judge_state_isolation(ctx, cfg, n):
+    """ONE Deserializer read step by step (public API: T::deserialize(&mut de) repeatedly), failures swallowed: what the LAST step yields (a Value) must not
+    depend on which TYPES were requested for the earlier tokens — every typed request on a scalar token consumes exactly that token, also when it fails.
+    (A flag left set on an error path — single precision, a scratch buffer, a depth counter — shows up as a dependence.)  Implementation vs implementation."""
+    rng = ctx.rng
+    toks = [b'"n/a"', b'"x"', b'null', b'true', b'1', b'300', b'-1', b'0.1', b'1e39', b'3e38', b'16777217.5', b'1e400', b'5e-324', b'0.30000000000000004', b'123456789012345678901234567890', b'-0']
+    lasts = [b'0.1', b'16777217.5', b'1e39', b'[0.1, 3e38]', b'{"a":0.30000000000000004}', b'"s"', b'[1e-50]', b'123456789.123456789']
+    lines, groups = [], []
+    for _ in range(n):
+        k = rng.choice([1, 2, 3])
+        seq = [rng.choice(toks) for _ in range(k)] + [rng.choice(lasts)]
+        text = b' '.join(seq)
+        variants = ['v' * k + 'v'] + [''.join(rng.choice('vsdfubin') for _ in range(k)) + 'v' for _ in range(3)]
+        for src in ('b', 'r'):
+            idx = []
+            for t in variants:
+                idx.append(len(lines))
+                lines.append('dq %s %s %s' % (src, t, hx(text)))
+            groups.append((text, variants, idx))
+    outs = ctx.impl(cfg, lines)
+    v = []
+    for text, variants, idx in groups:
+        last = [outs[i].split(',')[-1] for i in idx]
+        if len(set(last)) != 1:
+            j = next(j for j in range(len(last)) if last[j] != last[0])
+            v.append({'what': 'result-depends-on-types-requested-earlier', 'cfg': cfg, 'input': hx(text), 'expected': 'types %s: %s' % (variants[0], outs[idx[0]][:200]),
+                      'actual': 'types %s: %s' % (variants[j], outs[idx[j]][:200]), 'shrinkable': False})
+        elif not ctx.quiet and last[0].startswith('ok'):
+            ctx.distinct_nontrivial += 1
+    ctx.count('state-isolation-runs', len(lines))
     return v
 
 # ================================================================== C09: sources agree (implementation vs implementation)
@@ -1130,7 +1165,7 @@ PARSER_TB = ['modelled, not verified: std::io::Bytes (one-byte reads, Interrupte
              'the three readers are abstracted to one cursor (rest, off, peeked) — tied by running str/slice/reader sources with chunk schedules']
 
 register('C01', cfgs={'quick': ['def'], 'thorough': ['def', 'ap', 'fr', 'ud']}, side_cfgs=['ap', 'raw'], run=run_c01, judge=judge_c01, extended=run_c01, trusted_base=PARSER_TB)
-register('C02', cfgs={'quick': ['def', 'po'], 'thorough': ['def', 'po', 'fr', 'ap']}, side_cfgs=['ap', 'raw'], run=run_c02, judge=judge_c02, extended=run_c02, trusted_base=PARSER_TB)
+register('C02', cfgs={'quick': ['def', 'po'], 'thorough': ['def', 'po', 'fr', 'ap']}, side_cfgs=['ap', 'raw', 'fr'], run=run_c02, judge=judge_c02, extended=run_c02, trusted_base=PARSER_TB)
 register('C09', cfgs={'quick': ['def'], 'thorough': ['def', 'raw', 'ap', 'fr', 'po', 'ud']}, run=run_c09, judge=judge_c09, extended=run_c09, trusted_base=PARSER_TB)
 register('C10', cfgs={'quick': ['def', 'raw'], 'thorough': ['def', 'raw', 'ap']}, run=run_c10, judge=None, extended=run_c10, trusted_base=PARSER_TB)
 register('C11', cfgs={'quick': ['def'], 'thorough': ['def']}, run=run_c11, judge=judge_c11, extended=run_c11, trusted_base=PARSER_TB)
